@@ -368,6 +368,12 @@ func c04Workload(seed int64, idx int, tier string) []seqrun.Step {
 			set(id, keys[rng.Intn(len(keys))])
 		},
 	}
+	if idx%3 == 1 {
+		// recovery has to read more version records than one iterator batch holds
+		for i, n := 0, 105+rng.Intn(60); i < n; i++ {
+			steps = append(steps, seqrun.Step{Op: "set", Actor: -1, Key: fmt.Sprintf("bulk%03d", i), Tag: fmt.Sprintf("w%d-b%d", idx, i), Len: 6 + i%9})
+		}
+	}
 	rounds := tierN(tier, 2, 3)
 	for r := 0; r < rounds; r++ {
 		for _, bi := range rng.Perm(len(blocks)) {
@@ -405,6 +411,9 @@ func c04Case(tier string, seed int64, caseIdx int, scratch string) rt.CaseResult
 		op := ""
 		if stepIdx >= 0 && stepIdx < len(steps) {
 			op = steps[stepIdx].Op
+		}
+		if stepIdx >= 0 && stepIdx < len(steps) && strings.HasPrefix(steps[stepIdx].Key, "bulk") && i%41 != 0 {
+			continue // the bulk prefix only provides records; a few of its points are enough
 		}
 		important := strings.HasPrefix(nm, "core.updatetx") || strings.HasPrefix(nm, "cleaner.deletefile") || strings.HasPrefix(nm, "badger.txn") || op == "commit" || stepIdx < 0
 		if (tier == "thorough" || important || i%4 == idx%4) && i%c04Shards == shard {
